@@ -178,6 +178,15 @@ def hostile_trees():
     trees.append(({"main.asm": ".include \"i0.inc\"\n", **{"i%d.inc" % i: "nop\n.include \"i%d.inc\"\n" % (i + 1) for i in range(400)}, "i400.inc": "nop\n"}, "main.asm"))
     trees.append(({"main.asm": ".include \"pipe\"\nnop\n", "pipe": "<fifo>"}, "main.asm"))            # a pipe nobody writes to
     trees.append(({"main.asm": ".includepath \"d\"\n.include \"x\"\nnop\n", "x/keep": "", "d/x": "ret\n"}, "main.asm"))   # a directory of the included name
+    # files that include the next one twice: depth stays small, the number of files read doubles per level
+    for levels in (12, 20, 31):
+        fs = {"main.asm": ".include \"f0.inc\"\nnop\n", "f%d.inc" % levels: "nop\n"}
+        for i in range(levels):
+            fs["f%d.inc" % i] = ".include \"f%d.inc\"\n.include \"f%d.inc\"\n" % (i + 1, i + 1)
+        trees.append((fs, "main.asm"))
+    # a long file included from a macro body that is called many times
+    trees.append(({"main.asm": ".macro m\n.include \"big.inc\"\n.endm\n" + "m\n" * 2000, "big.inc": "; c\n" * 20000}, "main.asm"))
+    trees.append(({"main.asm": ".macro m\n.include \"big.inc\"\n.endm\n.macro k\n" + "m\n" * 300 + ".endm\n" + "k\n" * 300, "big.inc": ".equ q = 1\n" * 3000}, "main.asm"))
     trees.append(({}, "/dev/zero"))
     trees.append(({}, "/"))
     trees.append(({}, ""))
